@@ -271,6 +271,10 @@ class ModelCompiler:
                 if any(isinstance(el, list) for el in defn.cells):
                     for column in defn.cells:
                         for row_address in column:
+                            if row_address not in self.model.cells:
+                                # An empty cell of the named range.
+                                self.model.cells[row_address] = xltypes.XLCell(
+                                    row_address, None)
                             self.model.cells[row_address].defined_names.append(
                                 name)
                 else:
